@@ -69,7 +69,7 @@ def _relational(arg):
         return (a, bs)
     t0 = time.time()
     try:
-        paths, status = explore_closure(run, budget=6000, time_limit=150, cur_n=n)
+        paths, status = explore_closure(run, budget=6000, time_limit=150, cur_n=n, lazy_rel=True)
     except (Unsupported, Restart) as u:
         return dict(n=n, status='undecided', why='outside the subset: %s' % (u if isinstance(u, Unsupported) else 'conflicting normalisations'))
     except z3.Z3Exception as e:
